@@ -537,6 +537,8 @@ def rule_velfitform(ctx):
 
 
 RULES = [
+    ("C02.TEMPOFORM", 2, common.shared("c04", "rule_tempoform", "C02.TEMPOFORM")),
+    ("C02.WEIGHTNORM", 3, common.shared("c12", "rule_weightnorm", "C02.WEIGHTNORM")),
     ("C02.VELFITFORM", 1, rule_velfitform),
     ("C02.DHDFORM", 3, rule_dhdform),
     ("C02.OCCTHRESH", 1, rule_occthresh),
